@@ -104,12 +104,14 @@ def position_fn(kind, coding, coding_only, within, expand):
     return fn
 
 
-def position_pre(vc=False, **kw):
+def position_pre(vc=False, vc0=False, **kw):
     for i in range(2):
         if not (kw["s%d" % i] >= 0 and kw["l%d" % i] >= 1):
             return False
     if vc and not kw["l1"] == 1:
         return False  # variants are single-base SNVs (length-changing variants re-model their neighbours: C13)
+    if vc0 and not (kw["l0"] == 1 and kw["s0"] != kw["s1"]):
+        return False
     lo, hi = kw["lo"], kw["hi"]
     if not (0 <= lo and lo < hi):
         return False
@@ -117,6 +119,37 @@ def position_pre(vc=False, **kw):
         if not (lo <= kw["s%d" % i] and kw["s%d" % i] + kw["l%d" % i] <= hi):
             return False
     return True
+
+
+def many_members_fn():
+    """a collection with MANY members (size-dependent pre-selection would start at some member count): short genes tiled along the sequence plus a long gene and
+    a long feature collection that start upstream and reach across many of them; strict and relaxed queries anywhere return exactly the members whose span
+    lies within / overlaps the query. Realised leg, expectation by brute force over the spans."""
+
+    def fn(n, h, span, q, ab, within):
+        n, h, span, q, ab, within = concretize(n, h, span, q, ab, within)
+        with untraced():
+            spans = {}
+            genes, fcs = [], []
+            for i in range(n):
+                s, e = 100 * i + 10, 100 * i + 40
+                genes.append(GeneInterval([TranscriptInterval([s], [e], PLUS, guid=10000 + i)], guid=20000 + i, gene_id="g%d" % i))
+                spans[20000 + i] = (s, e)
+            hs, he = 100 * h + 50, 100 * (h + span) + 20
+            genes.append(GeneInterval([TranscriptInterval([hs], [he], PLUS, guid=30000)], guid=30001, gene_id="host"))
+            spans[30001] = (hs, he)
+            fcs.append(FeatureIntervalCollection([FeatureInterval([hs + 1], [he + 1], PLUS, guid=30002)], guid=30003, feature_collection_id="hostfc"))
+            spans[30003] = (hs + 1, he + 1)
+            hi = 100 * (n + 70)
+            coll = AnnotationCollection(genes=genes, feature_collections=fcs, sequence_name="chr1", start=0, end=hi)
+            a, b = [(0, 100), (45, 55), (15, 35), (5, 700)][ab]
+            qs, qe = 100 * q + a, 100 * q + b
+            res = coll.query_by_position(qs, qe, completely_within=bool(within))
+            got = sorted(c.guid for c in res.iter_children())
+            want = sorted(g for g, (s, e) in spans.items() if ((qs <= s and e <= qe) if within else (s < qe and qs < e)))
+            return got == want
+
+    return fn
 
 
 def default_bounds_fn(kind):
@@ -288,7 +321,7 @@ def obligations(tier):
     quick = tier == "quick"
     base = dict(s0=int, l0=int, s1=int, l1=int, lo=int, hi=int, qs=int, qe=int)
     ex = dict(s0=12, l0=8, s1=30, l1=5, lo=2, hi=60, qs=10, qe=40)
-    kinds = [("gene", "gene"), ("gene", "fc"), ("gene", "vc")]
+    kinds = [("gene", "gene"), ("gene", "fc"), ("gene", "vc"), ("vc", "vc")]
     for kind in kinds:
         for coding_only, within, expand in itertools.product((False, True), repeat=3):
             if quick and kind != ("gene", "fc") and (expand or (coding_only and not within)):
@@ -296,16 +329,16 @@ def obligations(tier):
             coding = (True, False)
             tag = "%s_%s_co%d_within%d_expand%d" % (kind[0], kind[1], coding_only, within, expand)
             out.append(Obl("position_" + tag, position_fn(kind, coding, coding_only, within, expand), dict(base),
-                           (lambda vc: (lambda **kw: position_pre(vc=vc, **kw)))(kind[1] == "vc"), budget=900, cost=90,
+                           (lambda vc, vc0: (lambda **kw: position_pre(vc=vc, vc0=vc0, **kw)))(kind[1] == "vc", kind[0] == "vc"), budget=900, cost=90,
                            desc="query_by_position: member returned <=> (strict: inside; relaxed: overlapping) and coding filter, regardless of the bin "
                                 "pre-filter (contract stub); result bounds = query (or expanded to members); members keep coordinates, dictionary form and "
                                 "child guids; invalid ranges => InvalidQueryError",
                            bounds="2 members (%s, %s), unbounded symbolic coordinates/bounds/query" % kind,
-                           examples=[dict(e, l1=1) if kind[1] == "vc" else e for e in (ex, dict(ex, qs=13), dict(ex, qs=0, qe=70))]))
+                           examples=[dict(e, l1=1, **({"l0": 1} if kind[0] == "vc" else {})) if kind[1] == "vc" else e for e in (ex, dict(ex, qs=13), dict(ex, qs=0, qe=70))]))
         # the same obligations against the EXACT bin semantics (bins() translated to z3 terms from source): no contract assumed, counterexamples
         # replay with the real bins
         for coding_only, within, expand in ((False, True, False), (False, False, False)):
-            if kind != ("gene", "fc") and quick:
+            if (kind != ("gene", "fc") and quick) or kind[0] == "vc":
                 continue
             tag = "%s_%s_co%d_within%d_expand%d" % (kind[0], kind[1], coding_only, within, expand)
             o = Obl("position_smtbins_" + tag, position_fn(kind, (True, False), coding_only, within, expand), dict(base),
@@ -320,7 +353,7 @@ def obligations(tier):
                                            "qe_ge_both": lambda **kw: kw["qe"] >= kw["s0"] + kw["l0"] and kw["qe"] >= kw["s1"] + kw["l1"]}))
             else:
                 out.append(o)
-        if quick and kind != ("gene", "fc"):
+        if (quick and kind != ("gene", "fc")) or kind[0] == "vc":
             continue
         out.append(Obl("position_defaults_%s_%s" % kind, default_bounds_fn(kind), dict(s0=int, l0=int, s1=int, l1=int, lo=int, hi=int, qs=int),
                        (lambda vc: (lambda **kw: position_pre(vc=vc, qe=0, **kw) and kw["lo"] <= kw["qs"] and kw["qs"] < kw["hi"] and kw["qs"] >= 0))(kind[1] == "vc"),
@@ -421,6 +454,14 @@ def obligations(tier):
                        budget=3000, cost=900,
                        desc="collection on a sequence chunk at a SYMBOLIC offset: strict and relaxed queries return exactly the specified members (bins contract stub)",
                        bounds="chunk length 24, 2 members, unbounded symbolic offset/coordinates/query", examples=[dict(w=100, s0=103, l0=4, s1=110, l1=5, qs=101, qe=120)]))
+    out.append(Obl("position_many_members_real_bins", many_members_fn(), dict(n=int, h=int, span=int, q=int, ab=int, within=int),
+                   lambda n, h, span, q, ab, within: (n == 70 or (n == 30 and not quick)) and 0 <= h and h <= 1 and (span == 1 or span == 5 or span == 39 or span == 60) and
+                   (q == 0 or q == 1 or q == 2 or q == 5 or q == 6 or q == 40 or q == 41 or q == 61) and 0 <= ab and ab <= 3 and 0 <= within and within <= 1,
+                   budget=900, cost=120, stubs=dict(bins="real"),
+                   desc="collection of 70 tiled short genes plus a long gene and a long feature collection that start upstream and span 1 / 5 / 39 / 60 tiles: strict and "
+                        "relaxed position queries (whole tile, inside a gap, inside a gene, 7 tiles) anywhere return exactly the members within / overlapping, real bins()",
+                   bounds="72 members; host start 2 x host span 4 x query tile 8 x query shape 4 x strict/relaxed (closed by the solver)",
+                   examples=[dict(n=70, h=0, span=60, q=40, ab=1, within=0), dict(n=70, h=1, span=5, q=5, ab=0, within=1)]))
     out.append(Obl("strict_query_real_bins_near_2pow29", real_bins_fn(), dict(k=int), lambda k: 0 <= k and k <= 4, budget=300, cost=20,
                    stubs=dict(bins="real"), consts=dict(),
                    desc="strict range query with the REAL bin pre-filter returns the contained members for query ends around 2^29",
